@@ -36,6 +36,10 @@ def _expr_sources(ff, e):
 
 
 def check(chk):
+    # the per-item sample deletions of a list input are reconciled by LABEL when the items are concatenated (shared with C02's concatenator rule)
+    from . import c02 as _c02
+    from .c01 import _Relabel as _RL
+    _c02._concat_align(_RL(chk, "MIRROR.state.concat", "REINSERT.concat"))
     pm = chk.pm
     san = pm.cls("xeofs.preprocessing.sanitizer.Sanitizer")
     tr = san.methods.get("transform")
